@@ -325,16 +325,24 @@ func ops() []operation {
 		html.NewPublisher(d, opts).Publish(&memWriter{}, 1)
 		return true
 	})
-	for _, qs := range []string{".Individuals | .Name | .String", ".Families | .Husband", "?", ".Individuals | { name: .Name | .String, born: .Birth | .String }"} {
-		qs := qs
-		add("query("+qs+")", "read", func(d *gedcom.Document) bool {
-			eng, err := q.NewParser().ParseString(qs)
-			if err != nil {
-				return false
-			}
-			v, err := eng.Evaluate([]*gedcom.Document{d})
-			if err == nil {
-				(&q.JSONFormatter{Writer: discard{}}).Write(v)
+	// queries only read; grouped so that the operation alphabet stays small
+	groups := map[string][]string{
+		"accessors": {".Individuals | .Name | .String", ".Families | .Husband", "?", ".Individuals | { name: .Name | .String, born: .Birth | .String }"},
+		"filters": {`.Nodes | Only(.Pointer != "I1") | .Pointer`, `.Families | Only(.Pointer = "F2") | .Pointer`, `.Individuals | Only(.Pointer != "I1") | .Families | Only(.Pointer != "F1")`,
+			`.Individuals | .Spouses | Only(.Pointer = "I3")`, `.Nodes | First(1)`, `.Nodes | Last(1) | .Nodes | Only(.Value != "")`, `Combine(.Nodes, .Families) | Length`, `.Individuals | .Nodes | Only(.Value = "M")`},
+	}
+	for _, g := range []string{"accessors", "filters"} {
+		qss := groups[g]
+		add("queries("+g+")", "read", func(d *gedcom.Document) bool {
+			for _, qs := range qss {
+				eng, err := q.NewParser().ParseString(qs)
+				if err != nil {
+					panic("query does not parse: " + qs)
+				}
+				v, err := eng.Evaluate([]*gedcom.Document{d})
+				if err == nil {
+					(&q.JSONFormatter{Writer: discard{}}).Write(v)
+				}
 			}
 			return true
 		})
@@ -579,6 +587,20 @@ func runHistory(initial string, hist []int, all []operation) (res result) {
 				seen[sig] = true
 				add(sig, fmt.Sprintf("history %v: view %s is %q on the live document but %q on a fresh decode of its text\n%s", names, k, live[k], ref[k], text))
 			}
+		}
+	}
+	// equality reads children through the same caches: every record must be deep-equal to its
+	// freshly decoded twin (same text), in both directions
+	fr := fresh.Nodes()
+	for i, n := range doc.Nodes() {
+		if i >= len(fr) {
+			break
+		}
+		ok := false
+		vlib.Try(func() { ok = gedcom.DeepEqual(n, fr[i]) && gedcom.DeepEqual(fr[i], n) })
+		if !ok {
+			add("stale:"+opKind(last)+":deep-equality", fmt.Sprintf("history %v: record %d of the live document is not DeepEqual to the same record of a fresh decode of the document's own text\n%s", names, i, text))
+			break
 		}
 	}
 	return
